@@ -2,9 +2,14 @@
    `shuffle_num_steps` is translated on this run from ShuffleRepeatBatchView.__init__;
    `batches` (Model/C04_Model.v) mirrors ShuffleRepeatBatchView.__iter__ with the
    k-th call of rng.shuffle as the oracle `shuf k` and is the function the
-   correspondence check evaluates against the real iterator. *)
+   correspondence check evaluates against the real iterator.
+   `srb_iter` (gen/Gen_client_datasets_shuffle.v) is the whole generator
+   ShuffleRepeatBatchView.__iter__ translated on this run (early return for an empty
+   buffer, main loop guard, inner refill loop, rng.shuffle guarded by skip_shuffle, slice
+   store, counters); C04_iterator_translated proves it computes exactly `batches`. *)
 From Coq Require Import ZArith List Bool Arith Permutation.
-From FV Require Import Common.ListX gen.Gen_client_datasets Model.C04_Model Proofs.C04_Proofs.
+From FV Require Import Common.ListX Common.NpArr gen.Gen_client_datasets gen.Gen_client_datasets_shuffle.
+From FV Require Import Model.C04_Model Proofs.C04_Proofs Proofs.C04_IterProofs.
 Import ListNotations.
 
 (* the number of batches is the documented function of (N, bs, epochs, steps, drop) *)
@@ -45,7 +50,32 @@ Theorem C04_usage_balanced : forall steps bs W p x y, steps * bs <= W * N -> x <
   count_occ Nat.eq_dec (firstn p (concat (batches shuf N steps bs))) x
   <= S (count_occ Nat.eq_dec (firstn p (concat (batches shuf N steps bs))) y).
 Proof. exact (usage_balanced shuf N Npos shuf_perm). Qed.
+
+(* the translated generator IS the mirror: asked for a finite count it returns (GDone)
+   after exactly the batches of `batches`; an unbounded stream (num_epochs = num_steps =
+   None) observed for `steps` batches has produced `batches ... steps`; with
+   skip_shuffle the oracle is never consulted (identity oracle).  Inner-loop fuel bs+1
+   and main-loop fuel steps+1 suffice (GErr / fuel exhaustion excluded by the equality). *)
+Theorem C04_iterator_translated : forall steps bs,
+  srb_iter shuf (S steps) (S bs) (Z.of_nat N) (Z.of_nat bs) (Some (Z.of_nat steps)) false = GDone (batches shuf N steps bs) /\
+  srb_iter shuf (S steps) (S bs) (Z.of_nat N) (Z.of_nat bs) (Some (Z.of_nat steps)) true = GDone (batches idshuf N steps bs) /\
+  (1 <= N -> srb_iter shuf steps (S bs) (Z.of_nat N) (Z.of_nat bs) None false = GMore (batches shuf N steps bs)) /\
+  (1 <= N -> srb_iter shuf steps (S bs) (Z.of_nat N) (Z.of_nat bs) None true = GMore (batches idshuf N steps bs)).
+Proof. exact (srb_iter_is_batches shuf N (fun k b => Permutation_length (shuf_perm k b))). Qed.
 End C04.
+
+(* the same for every num_steps value the step-count computation can return (negative
+   counts give no batch), every dataset size including 0 (early return), any fuel *)
+Theorem C04_iterator_translated_any_count : forall shuf N, (forall k b, length (shuf k b) = length b) ->
+  forall skip fuel bs desired,
+  srb_iter shuf fuel (S bs) (Z.of_nat N) (Z.of_nat bs) desired skip
+  = if N =? 0 then GDone []
+    else match desired with
+         | None => GMore (batches (eff_shuf shuf skip) N fuel bs)
+         | Some d => if Z.to_nat d <? fuel then GDone (batches (eff_shuf shuf skip) N (Z.to_nat d) bs)
+                     else GMore (batches (eff_shuf shuf skip) N fuel bs)
+         end.
+Proof. exact srb_iter_eq. Qed.
 
 (* with shuffling disabled the stream is the cyclic original order *)
 Theorem C04_skip_shuffle_cyclic : forall N steps bs p, 1 <= N -> p < steps * bs ->
@@ -62,12 +92,17 @@ Example C04_example :
   batches rot 3 4 2 = [[1; 2]; [0; 2]; [0; 1]; [0; 1]] /\
   shuffle_num_steps 3 2 (Some 2%Z) None false = Some (Some 3%Z) /\
   shuffle_num_steps 3 2 (Some 2%Z) (Some 7%Z) true = Some (Some 3%Z) /\
-  shuffle_num_steps 3 2 None None true = Some None.
+  shuffle_num_steps 3 2 None None true = Some None /\
+  srb_iter rot 5 3 3 2 (Some 4%Z) false = GDone [[1; 2]; [0; 2]; [0; 1]; [0; 1]] /\
+  srb_iter rot 2 3 3 2 None true = GMore [[0; 1]; [2; 0]] /\
+  srb_iter rot 5 3 0 2 None false = GDone [].
 Proof. vm_compute. repeat split. Qed.
 
 Print Assumptions C04_num_steps_formula.
 Print Assumptions C04_stream_is_window_concat.
 Print Assumptions C04_first_batches_cover.
 Print Assumptions C04_usage_balanced.
+Print Assumptions C04_iterator_translated.
+Print Assumptions C04_iterator_translated_any_count.
 Print Assumptions C04_skip_shuffle_cyclic.
 Print Assumptions C04_empty_dataset_no_batches.
